@@ -30,6 +30,13 @@ def step (st : Store) (toks : List String) : Store × String :=
       let k := pfx :: concatKey c fs
       (st', if st.get k == some [] then "unchanged" else Hex.showHex k)
     | _, _ => (st, "bad-op")
+  | "hold" :: _ :: c :: rest =>
+    let fa := rest.takeWhile (· != "/")
+    let fb := (rest.dropWhile (· != "/")).drop 1
+    match Hex.ofHex c, fa.mapM Hex.ofHex, fb.mapM Hex.ofHex with
+    | some c, some fa, some fb => (st, Hex.showHex (concatKey c fa) ++ " " ++ Hex.showHex (concatKey c fb))
+    | _, _, _ => (st, "bad-op")
+  | "par" :: _ => (st, "ok")
   | "get" :: _ :: c :: fs =>
     match Hex.ofHex c, fs.mapM Hex.ofHex with
     | some c, some fs =>
